@@ -21,56 +21,62 @@ theorem spreadDef_some {l : Links} {d : QueryDoc} {n : Name} {p : Pos} {f : Frag
 /- ---------- MaxIntrospectionDepth ---------- -/
 
 def DJumpOK (d : QueryDoc) (n : Nat) (J : DJump) : Prop :=
-  ∀ visited depth sels, unvisited d visited + 1 ≤ n → ∃ b, J visited depth sels = some b
+  ∀ visited depth cl sels, unvisited d visited + 1 ≤ n → ∃ b, J visited depth cl sels = some b
 
 mutual
   theorem checkDepthSelection_ok (l : Links) (d : QueryDoc) (J : DJump) (n : Nat) (hJ : DJumpOK d n J) :
-      ∀ (x : Selection) (visited : List Name) (depth : Nat), unvisited d visited ≤ n →
-        ∃ b, checkDepthSelection l d J visited depth x = some b
-    | .field _ nm _ _ sub _, visited, depth, h => by
+      ∀ (x : Selection) (visited : List Name) (depth : Nat) (cl : Cleared), unvisited d visited ≤ n →
+        ∃ b, checkDepthSelection l d J visited depth cl x = some b
+    | .field _ nm _ _ sub _, visited, depth, cl, h => by
       unfold checkDepthSelection
       split
       · split
         · exact ⟨_, rfl⟩
-        · exact checkDepthSelections_ok l d J n hJ sub visited (depth + 1) h
-      · exact checkDepthSelections_ok l d J n hJ sub visited depth h
-    | .spread nm _ p, visited, depth, h => by
+        · exact checkDepthSelections_ok l d J n hJ sub visited (depth + 1) cl h
+      · exact checkDepthSelections_ok l d J n hJ sub visited depth cl h
+    | .spread nm _ p, visited, depth, cl, h => by
       unfold checkDepthSelection
       split
       · exact ⟨_, rfl⟩
       · rename_i hc
-        cases hs : l.spreadDef d nm p with
-        | none => exact ⟨_, rfl⟩
-        | some f =>
-          simp only
-          have hf := spreadDef_some hs
-          have hn := fragForName_name hf
-          have hc' : visited.contains f.name = false := by rw [hn]; simpa using hc
-          have hlt := unvisited_lt d visited f (fragForName_mem hf) hc'
-          rw [hn] at hlt
-          exact hJ (nm :: visited) depth f.sel (by omega)
-    | .inline _ _ sub _, visited, depth, h => by
+        split
+        · exact ⟨_, rfl⟩
+        · cases hs : l.spreadDef d nm p with
+          | none => exact ⟨_, rfl⟩
+          | some f =>
+            simp only
+            have hf := spreadDef_some hs
+            have hn := fragForName_name hf
+            have hc' : visited.contains f.name = false := by rw [hn]; simpa using hc
+            have hlt := unvisited_lt d visited f (fragForName_mem hf) hc'
+            rw [hn] at hlt
+            obtain ⟨r, hr⟩ := hJ (nm :: visited) depth cl f.sel (by omega)
+            rw [hr]
+            obtain ⟨b, cl'⟩ := r
+            cases b <;> exact ⟨_, rfl⟩
+    | .inline _ _ sub _, visited, depth, cl, h => by
       unfold checkDepthSelection
-      exact checkDepthSelections_ok l d J n hJ sub visited depth h
+      exact checkDepthSelections_ok l d J n hJ sub visited depth cl h
   theorem checkDepthSelections_ok (l : Links) (d : QueryDoc) (J : DJump) (n : Nat) (hJ : DJumpOK d n J) :
-      ∀ (xs : Selections) (visited : List Name) (depth : Nat), unvisited d visited ≤ n →
-        ∃ b, checkDepthSelections l d J visited depth xs = some b
-    | .nil, _, _, _ => ⟨_, rfl⟩
-    | .cons x rest, visited, depth, h => by
+      ∀ (xs : Selections) (visited : List Name) (depth : Nat) (cl : Cleared), unvisited d visited ≤ n →
+        ∃ b, checkDepthSelections l d J visited depth cl xs = some b
+    | .nil, _, _, _, _ => ⟨_, rfl⟩
+    | .cons x rest, visited, depth, cl, h => by
       unfold checkDepthSelections
-      obtain ⟨b, hb⟩ := checkDepthSelection_ok l d J n hJ x visited depth h
+      obtain ⟨r, hb⟩ := checkDepthSelection_ok l d J n hJ x visited depth cl h
       rw [hb]
+      obtain ⟨b, cl'⟩ := r
       cases b with
       | true => exact ⟨_, rfl⟩
-      | false => exact checkDepthSelections_ok l d J n hJ rest visited depth h
+      | false => exact checkDepthSelections_ok l d J n hJ rest visited depth cl' h
 end
 
 theorem depthLevel_ok (l : Links) (d : QueryDoc) : ∀ n, DJumpOK d n (depthLevel l d n)
-  | 0 => by intro _ _ _ h; omega
+  | 0 => by intro _ _ _ _ h; omega
   | n + 1 => by
-    intro visited depth sels h
+    intro visited depth cl sels h
     simp only [depthLevel]
-    exact checkDepthSelections_ok l d _ n (depthLevel_ok l d n) sels visited depth (by omega)
+    exact checkDepthSelections_ok l d _ n (depthLevel_ok l d n) sels visited depth cl (by omega)
 
 theorem maxIntrospectionDepth_neverPanics : maxIntrospectionDepth.NeverPanics := by
   intro s d st e m h
@@ -85,10 +91,11 @@ theorem maxIntrospectionDepth_neverPanics : maxIntrospectionDepth.NeverPanics :=
       simp only at hstep
       split at hstep
       · obtain ⟨b, hb⟩ := checkDepthSelection_ok e.links d _ (d.frags.length + 1)
-          (depthLevel_ok e.links d (d.frags.length + 1)) (.field f.alias f.name f.args f.dirs f.sel f.pos) [] 0
+          (depthLevel_ok e.links d (d.frags.length + 1)) (.field f.alias f.name f.args f.dirs f.sel f.pos) [] 0 []
           (by rw [unvisited_nil]; omega)
         rw [hb] at hstep
-        cases b <;> cases hstep
+        obtain ⟨b1, cl1⟩ := b
+        cases b1 <;> cases hstep
       · cases hstep
     | _ => rw [hp] at hstep; cases hstep
 
@@ -101,9 +108,9 @@ theorem topWalk_ok (l : Links) (d : QueryDoc) (J : TopJump) (n : Nat) (hJ : TopJ
     ∀ (sels : Selections) (st : TopState), unvisited d st.inFrag ≤ n →
       ∃ r, topWalk l d J sels st = some r ∧ st.inFrag ⊆ r.inFrag
   | .nil, st, _ => ⟨st, by simp [topWalk], fun _ hx => hx⟩
-  | .cons (.field _ nm _ _ _ p) rest, st, h => by
+  | .cons (.field al nm _ _ _ p) rest, st, h => by
     unfold topWalk
-    exact topWalk_ok l d J n hJ rest { st with fields := st.fields ++ [(nm, p)] } h
+    exact topWalk_ok l d J n hJ rest { st with fields := st.fields ++ [(if al != [] then al else nm, nm, p)] } h
   | .cons (.inline _ _ sub _) rest, st, h => by
     unfold topWalk
     obtain ⟨r1, h1, m1⟩ := topWalk_ok l d J n hJ sub st h
